@@ -39,6 +39,78 @@ contract(
     locals=dict(_src.locals),
 )
 
+# ---- _getAnchors ---------------------------------------------------------------------------------------------------------------------------
+# Since /repo d6899d5 the exported glyph is passed in and the coordinates are those of ITS first anchor of the name (before: looked up by name in
+# the context's font, finding F-C18-b).  If the exported glyph has no anchor of the name the code still falls back to the font's glyph.
+@M.shim_function("reversed", "reversed(xs) for a list: consumed as a sequence r with len(r) == len(xs) and r[i] == xs[len(xs) - 1 - i] (library semantics of the builtin)")
+def _reversed(ex, st, args, kwargs, node):
+    from pyvc.core import Unsupported, fresh_name, lift
+
+    (v,) = args
+    if kwargs or not isinstance(v.ty, T.List) or v.is_py:
+        raise Unsupported(f"reversed() of {v.ty}", node)
+    s = lift(v)
+    r = z3.Function("c18_reversed_" + T._mangle(v.ty.elem), v.ty.sort(), v.ty.sort())(s)
+    if ("c18reversed", r.get_id()) not in st.ghost:
+        st.ghost[("c18reversed", r.get_id())] = r
+        i = z3.Int(fresh_name("ri"))
+        st.assume(z3.Length(r) == z3.Length(s))
+        st.assume(z3.ForAll([i], z3.Implies(z3.And(0 <= i, i < z3.Length(s)), r[i] == s[z3.Length(s) - 1 - i])))
+        st.assume(z3.ForAll([i], z3.Implies(z3.And(0 <= i, i < z3.Length(s)), s[i] == r[z3.Length(s) - 1 - i])))  # the same fact, read from xs
+    return Val(v.ty, r)
+
+
+from pyvc.symex import FuncRef as _FuncRef  # noqa: E402
+
+REVERSED = M.native_global(Val.obj(_FuncRef(_reversed, "c17shim.reversed")), reversed)
+_FG = "self.context.font.glyphs"
+_A = f"{_FG}[glyphName].anchors"
+_G = "glyph.anchors"
+_R = "reversed(glyph.anchors)"
+
+
+_ANCH = "anchors = {a.name: a for a in reversed(glyph.anchors)} if glyph is not None else {}"
+
+
+def _own(nm):
+    """the exported glyph is given and has an anchor of that name"""
+    return f"(glyph is not None and any({_G}[b].name == {nm}Name for b in range(len({_G}))))"
+
+
+def _side(k, nm):
+    r = f"result[{k}]"
+    return {
+        # the exported glyph's own FIRST anchor of the name, rounded
+        f"{nm}-at-own-rounded-coordinates": f"implies({_own(nm)}, {r} is not None and {r}.kind == 'Anchor' and any({_G}[f].name == {nm}Name and all({_G}[b].name != {nm}Name for b in range(f))"
+        f" and {r}.x == c18_round({_G}[f].x) and {r}.y == c18_round({_G}[f].y) for f in range(len({_G}))))",
+        # otherwise (no glyph given, or it has no such anchor): looked up by name in the context's font
+        f"{nm}-fallback-null-iff-no-such-anchor": f"implies(not {_own(nm)}, iff({r} is None, glyphName not in {_FG} or not any({_A}[b].name == {nm}Name for b in range(len({_A})))))",
+        f"{nm}-fallback-at-rounded-coordinates": f"implies(not {_own(nm)} and {r} is not None, {r}.kind == 'Anchor' and any({_A}[b].name == {nm}Name"
+        f" and {r}.x == c18_round({_A}[b].x) and {r}.y == c18_round({_A}[b].y) for b in range(len({_A}))))",
+    }
+
+
+# NOT YET DEDUCTIVE: the name -> first-anchor dict is built as `{a.name: a for a in reversed(glyph.anchors)}`; its characterisation ("the value
+# of key n is the FIRST anchor named n") needs index arithmetic through the reversal plus beta-reduction of the engine's array-lambda encoding of
+# computed-key dict comprehensions, and some of the steps time out in every solver configuration (notes/C18.md).  The clauses about WHICH
+# coordinates are used are therefore `bounded_ensures` (checked on the real function by the Runtime harness below, never counted as proved);
+# deductively only the shape of the result is proved.
+contract(
+    "ufo2ft.featureWriters.cursFeatureWriter:CursFeatureWriter._getAnchors",
+    props=["C18"],
+    params={"self": Ref("c18_CW"), "glyphName": STR, "entryName": STR, "exitName": STR, "glyph": Opt(Ref("c18_UGlyph"))},
+    returns=Tuple(Opt(Ref(NODE)), Opt(Ref(NODE))),
+    globals={"ast": M.fea_shim(), "isinstance": M.ISINSTANCE, "reversed": REVERSED},
+    requires=["not self.context.isVariable"],
+    ensures={
+        "anchor-nodes": "(result[0] is None or result[0].kind == 'Anchor') and (result[1] is None or result[1].kind == 'Anchor')",
+        "two-nodes": "implies(result[0] is not None and result[1] is not None, result[0] != result[1])",
+    },
+    bounded_ensures={**_side(0, "entry"), **_side(1, "exit")},
+    canaries={"entry-always-null": "result[0] is None", "exit-always-null": "result[1] is None"},
+    locals={"entryAnchor": Opt(Ref(NODE)), "exitAnchor": Opt(Ref(NODE)), "anchors": Dict(Opt(STR), Ref("c18_UAnchor"))},
+)
+
 # ---- _getCursiveAnchorPairs ------------------------------------------------------------------------------------------------------------------
 from .c06sets import NAMESET, NAMESET_CTOR  # noqa: E402
 
@@ -184,3 +256,68 @@ contract(
         }),
     },
 )
+
+
+# ---- run-time side: real CursFeatureWriter objects on small UFOs -------------------------------------------------------------------------
+_CURS_ANCHORS = ["entry", "exit", "entry.LTR", "exit.LTR", "entry.RTL", "exit.RTL", "entry.1", "exit.1", "exit.2", "top", "entryx", "entry.", "exit."]
+_CURS_GLYPHS = ["a", "b", "c", "beh-ar", "skipped"]
+
+
+def curs_cases(rng, n):
+    out = []
+    for _ in range(n):
+        glyphs = {}
+        for nm in _CURS_GLYPHS:
+            names = rng.sample(_CURS_ANCHORS, rng.randint(0, 3))
+            if rng.random() < 0.15 and names:
+                names.append(names[0])  # duplicate name: the first anchor of the name counts
+            if rng.random() < 0.2:
+                names.insert(rng.randint(0, len(names)), None)  # an unnamed anchor (F-C18-a: used to crash the writer)
+            g = {"anchors": [[an, rng.choice([0, 10.5, 100, 99.5, -3.5]), rng.choice([0, 200, 200.5])] for an in names]}
+            if rng.random() < 0.6:
+                g["box"] = [0, 0, 100, 100]  # the others have NO contour: `bool(glyph)` is False for them (the first repair tested truthiness)
+            glyphs[nm] = g
+        out.append({"glyphs": glyphs, "skip": rng.choice([[], ["skipped"], ["skipped", "c"]]), "g": rng.choice(_CURS_GLYPHS + ["ghost"]),
+                    "pair": rng.choice([["entry", "exit"], ["entry.LTR", "exit.LTR"], ["entry.1", "exit.1"], ["entry.", "exit."]]),
+                    "shift": rng.choice([0, 0, 100]), "pass_glyph": rng.random() < 0.8})
+    return out
+
+
+def curs_writer(d):
+    import logging
+
+    from ufo2ft.featureWriters import CursFeatureWriter
+
+    from . import c17, rtlib
+
+    logging.getLogger("ufo2ft").setLevel(logging.CRITICAL)
+    ufo = rtlib.build_ufo({"glyphs": d["glyphs"], "lib": {"public.skipExportGlyphs": list(d["skip"])} if d["skip"] else {}})
+    w = CursFeatureWriter()
+    w.setContext(ufo, c17.parse_fea(""))
+    return w
+
+
+def _exported_copy(w, name, shift):
+    """the glyph as a glyph-set filter would hand it over: a COPY of the font's glyph whose anchors are moved by `shift`"""
+    import copy
+
+    if name not in w.context.font:
+        return None
+    g = copy.deepcopy(w.context.font[name])
+    for a in g.anchors:
+        a.x += shift
+    return g
+
+
+def _getanchors_build(d):
+    w = curs_writer(d)
+    glyph = _exported_copy(w, d["g"], d["shift"]) if d["pass_glyph"] else None
+    return {"self": w, "glyphName": d["g"], "entryName": d["pair"][0], "exitName": d["pair"][1], "glyph": glyph}
+
+
+CONTRACTS["ufo2ft.featureWriters.cursFeatureWriter:CursFeatureWriter._getAnchors"].runtime = Runtime(
+    curs_cases, _getanchors_build, call=lambda fn, a: M.P(fn(a["self"], a["glyphName"], a["entryName"], a["exitName"], glyph=a["glyph"])))
+CONTRACTS[_GA_KEY + "#c18_CW"].runtime = Runtime(G.getanchor_cases, lambda d: G.getanchor_build({**d, "g": d["g"]}, writer=lambda dd: curs_writer({**dd, "skip": dd["skip"]})),
+                                                  call=lambda fn, a: fn(a["self"], a["glyphName"], a["anchorName"], anchor=a["anchor"]))
+for _v in ("only", "every"):
+    CONTRACTS[GCP + "#" + _v].runtime = Runtime(curs_cases, lambda d: {"glyphs": list(curs_writer(d).getOrderedGlyphSet().items())}, call=lambda fn, a: fn(a["glyphs"]))
